@@ -111,13 +111,16 @@ class Instance:
         # is the same linear problem; the budget is scaled with the sample count (seeded change C05_9: extra samples at x0 taken at
         # the SCALED point)
         self.nsamp = int(rng.integers(2, 4)) if rng.random() < 0.15 else 1
+        # documented option: the diagnostic table (with its poisedness column) must only OBSERVE the run (seeded change C05_13: the
+        # poisedness computation shifted the model's bounds in place)
+        self.diag = bool(rng.random() < 0.15)
         self.npt = n + 1 if rng.random() < 0.5 else 2 * n + 1
         # documented option: hard restarts (a restarted run starts from the best point and re-uses its residuals; on a linear problem
         # it ties with the previous run, which must count as UNsuccessful so that the run still ends with success)
         self.hard_restarts = bool(rng.random() < 0.15)
 
     def describe(self):
-        return {"n": self.n, "m": self.m, "cond_A": self.cond, "bounds": self.bkind, "scaling": self.scaling, "npt": self.npt, "hard_restarts": self.hard_restarts, "nsamples": self.nsamp, "thin_box": bool(getattr(self, "thin", False)),
+        return {"n": self.n, "m": self.m, "cond_A": self.cond, "bounds": self.bkind, "scaling": self.scaling, "npt": self.npt, "hard_restarts": self.hard_restarts, "nsamples": self.nsamp, "diagnostics": bool(getattr(self, "diag", False)), "thin_box": bool(getattr(self, "thin", False)),
                 "x0_on_bound": bool(self.bounds is not None and np.any((self.x0 == self.bounds[0]) | (self.x0 == self.bounds[1])))}
 
     def objfun(self, x):
@@ -125,6 +128,8 @@ class Instance:
 
     def solve(self, dfols):
         kw = dict(npt=self.npt, do_logging=False, scaling_within_bounds=self.scaling)
+        if getattr(self, "diag", False):
+            kw.setdefault("user_params", {})["logging.save_diagnostic_info"] = True
         if self.nsamp > 1:
             kw["nsamples"] = lambda delta, rho, it, nruns, k=self.nsamp: k
             kw["maxfun"] = self.nsamp * min(100 * (self.n + 1), 1000)
@@ -210,11 +215,12 @@ def check_instance(inst, soln):
         return "fail:C05:suboptimal:" + cls, info
     if gap < -1e-9 * (1.0 + fstar):
         return "skip:oracle-worse-than-dfols", info
-    if int(soln.flag) == 1 and getattr(inst, "hard_restarts", False) and int(soln.nruns) <= 11:
-        # hard restarts (an option outside the property's 'default' run, drawn to watch the restart merge): on a linear problem
-        # every restart ties and counts as unsuccessful, so at most 1 + restarts.max_unsuccessful_restarts = 11 runs are made; the
-        # budget may end before the 11th - then the max-evaluations warning at the optimum is what the option documents.
-        # More than 11 runs mean that tied restarts were counted as successful (seeded C05_7) - reported below.
+    if int(soln.flag) == 1 and getattr(inst, "hard_restarts", False):
+        # hard restarts (an option outside the property's 'default' run, drawn to watch the restart merge): restarts go on until
+        # restarts.max_unsuccessful_restarts runs IN A ROW fail to improve or the budget ends; on a linear problem a restarted run
+        # can improve the objective by a rounding-level amount and count as successful, so the number of runs is not bounded by 11
+        # and the max-evaluations warning at the optimum is what the option documents.  (A first version of this rule demanded
+        # <= 11 runs and raised a false alarm on the unchanged tree: n = 8, npt = 17, 900 evaluations.)
         info["hard_restarts_budget_end"] = int(soln.nruns)
         return "ok", info
     if int(soln.flag) != 0:
